@@ -13,7 +13,7 @@ import (
 
 //vp:property C09
 //vp:flag lockset
-//vp:bounds two websocket tunnels A and B on one Gateway: each does the full set-up (4 packets), one DATA packet and then ends by an out-of-order packet (error response) while its backend has sent one chunk and stays open; idle timeout arbitrary (incl. negative); logical threads: handler A, handler B, relay goroutine of A, relay goroutine of B
+//vp:bounds two websocket tunnels A and B on one Gateway: each does the full set-up (4 packets), one DATA packet and then ends by an out-of-order packet (error response) while its backend has sent one chunk and stays open; idle timeout arbitrary (incl. negative); client writes may stall (the tunnel's other goroutines run while a packet is in flight); logical threads: handler A, handler B, relay goroutine of A, relay goroutine of B
 //vp:assume websocket/hijacked connections allow one concurrent writer (gorilla docs): the client transport's write log is the contended location; net.Conn, prometheus gauges and go-cache are safe for concurrent use
 //vp:reach done
 func VP_C09_ws() {
@@ -22,6 +22,7 @@ func VP_C09_ws() {
 	g := &Gateway{IdleTimeout: int(int32(vpU32("idle")))}
 	trA, trB := vpScript(5, 2), vpScript(5, 2)
 	trA.yieldOnRead, trB.yieldOnRead = true, true
+	trA.stallWrites, trB.stallWrites = true, true
 	tA := &Tunnel{RDGId: "conn-A", User: vpUser(), RemoteAddr: "10.0.0.1:1"}
 	tB := &Tunnel{RDGId: "conn-B", User: vpUser(), RemoteAddr: "10.0.0.2:1"}
 	vpBackendChunk = []byte{1, 2, 3}
@@ -37,7 +38,16 @@ func VP_C09_ws() {
 	vpRunTasks()
 	vpThread("setup")
 	vpReach("done")
-	vpAssert(true, "scenario-completed")
+	vpAssert(trA.corrupted == 0 && trB.corrupted == 0, "no-packet-changes-while-the-client-connection-is-writing-it")
+	// frame integrity as seen by the clients
+	for _, tr := range []*vpTransport{trA, trB} {
+		for _, p := range tr.out {
+			vpAssert(len(p) >= 8 && vpLE32(p, 4) == uint32(len(p)), "every-frame-sent-to-a-client-is-whole")
+			if len(p) >= 10 && vpLE16(p, 0) == 0xA {
+				vpAssert(vpEqBytes(p[10:], vpBackendChunk), "data-frames-carry-the-hosts-bytes")
+			}
+		}
+	}
 }
 
 //vp:property C09
